@@ -7,7 +7,10 @@
   is dropped.  Proved here: the mechanism of the (repaired) `clear` finding on the model (a
   concrete witness of the double drop for *every* non-empty column layout), that the length-first
   order is panic safe (leaks at worst), and for `Entry::remove` that dropping the detached
-  component in the middle of the row move is not panic safe (witness) while dropping it last is.  The fault-enumeration run checks every
+  component in the middle of the row move is not panic safe (witness) while dropping it last is;
+  and the mechanism of the recorded `World::remove` finding (`C17_remove_drop_panic_double_drop`:
+  for every column layout and row, a `Drop` panic in the column loop ends in a double drop) and of
+  the recorded `World::clone_from` finding (`C17_clone_from_panic_double_drop`).  The fault-enumeration run checks every
   (operation, callback, position) of the table below on the real crate; pairs the table calls safe
   must show no double drop, no allocator error, no crash.  PARTIAL: unwinding itself, `Vec`'s
   internal guards and rayon's panic propagation are modelled from their documentation.
@@ -50,6 +53,94 @@ theorem C17_clear_length_first_safe (cols : List (List Val)) (j : Nat) :
     let (_, st) := clearFaultLengthFirst cols j
     st.dropAll = [] := by
   simp [clearFaultLengthFirst, RawArch.dropAll]
+
+/-- **The `World::remove` finding (recorded, not repaired), for every layout**: if removing row
+`index` is interrupted by a `Drop` panic in column `j`, some value is dropped twice once the
+archetype is dropped — the removed value itself when the row was the last one, the last row's value
+(now present in two slots) otherwise. -/
+theorem C17_remove_drop_panic_double_drop (c0 : List Val) (rest : List (List Val)) (index j : Nat)
+    (hi : index < c0.length) :
+    ¬ NoDoubleDrop ((removeFault (c0 :: rest) index j).1 ++ (removeFault (c0 :: rest) index j).2.dropAll) := by
+  unfold NoDoubleDrop
+  intro hnd
+  have hne : c0 ≠ [] := by intro h; simp [h] at hi
+  obtain ⟨l, hl⟩ : ∃ l, c0.getLast? = some l := by
+    cases h : c0.getLast? with
+    | none => exact absurd (List.getLast?_eq_none_iff.mp h) hne
+    | some l => exact ⟨l, rfl⟩
+  have hlast : c0[c0.length - 1]? = some l := by
+    rw [List.getLast?_eq_getElem?] at hl; exact hl
+  simp only [removeFault, List.take_succ_cons, List.filterMap_cons, List.getElem?_eq_getElem hi,
+    List.headD_cons, List.map_cons, hl, RawArch.dropAll, List.cons_append, List.flatMap_cons] at hnd
+  have hlen : (c0.set index l).length = c0.length := by simp
+  rw [← hlen, List.take_length] at hnd
+  by_cases hlastrow : index = c0.length - 1
+  · -- the removed value is dropped by the operation and again by the archetype's drop
+    have hsame : c0.set index l = c0 := by
+      apply List.ext_getElem?
+      intro k
+      by_cases hk : k = index
+      · subst hk
+        rw [List.getElem?_set_self hi, hlastrow]; rw [hlastrow] at hi
+        exact hlast.symm
+      · rw [List.getElem?_set_ne (Ne.symm hk)]
+    rw [hsame] at hnd
+    have h1 := (List.nodup_cons.mp hnd).1
+    apply h1
+    simp only [List.mem_append]
+    right; left
+    exact List.getElem_mem hi
+  · -- the last row's value now sits in two slots covered by the shared length
+    have hlt : index < c0.length - 1 := by omega
+    have hsub : (c0.set index l).Nodup := by
+      have h2 := (List.nodup_cons.mp hnd).2
+      have h3 := (List.nodup_append.mp h2).2.1
+      exact (List.nodup_append.mp h3).1
+    have ha : (c0.set index l)[index]? = some l := List.getElem?_set_self hi
+    have hb : (c0.set index l)[c0.length - 1]? = some l := by
+      rw [List.getElem?_set_ne (by omega)]; exact hlast
+    have hi' : index < (c0.set index l).length := by simpa using hi
+    have hj' : c0.length - 1 < (c0.set index l).length := by simp; omega
+    have hpw := List.pairwise_iff_getElem.mp (List.nodup_iff_pairwise_ne.mp hsub) index (c0.length - 1) hi' hj' hlt
+    apply hpw
+    have e1 := List.getElem?_eq_getElem hi'
+    have e2 := List.getElem?_eq_getElem hj'
+    rw [ha] at e1; rw [hb] at e2
+    exact Option.some.inj (e1.symm.trans e2)
+
+/-- Instance: removing the first of two rows, panic in the first column. -/
+example : (removeFault witnessCols 0 0).1 = [⟨0, 1⟩] ∧
+    (removeFault witnessCols 0 0).2.dropAll = [⟨0, 2⟩, ⟨0, 2⟩, ⟨2, 3⟩, ⟨2, 4⟩] := by
+  refine ⟨by decide, by decide⟩
+
+/-- **The `World::clone_from` finding (recorded, not repaired)**: when the destination table holds
+more rows than the source and a `Clone` panics in column `j`, the values `Vec::clone_from` cut off
+column `j` before cloning are dropped by the operation and — still covered by the stale shared
+length — again when the archetype is dropped. -/
+theorem C17_clone_from_panic_double_drop (e : Nat) (dst src : List (List Val)) (j : Nat)
+    (hd : ∀ c ∈ dst, c.length = (dst.headD []).length) :
+    ∀ v ∈ ((dst.drop j).headD []).drop ((src.drop j).headD []).length,
+      v ∈ (cloneFromFault e dst src j).1 ∧ v ∈ (cloneFromFault e dst src j).2.dropAll := by
+  intro v hv
+  refine ⟨by simp only [cloneFromFault]; exact List.mem_append_right _ hv, ?_⟩
+  simp only [cloneFromFault, RawArch.dropAll, List.flatMap_append, List.mem_append]
+  right
+  cases hdj : dst.drop j with
+  | nil => simp [hdj] at hv
+  | cons c rest =>
+    rw [hdj] at hv
+    simp only [List.headD_cons] at hv
+    have hc : c ∈ dst := List.mem_of_mem_drop (by rw [hdj]; simp)
+    simp only [List.flatMap_cons, List.mem_append]
+    left
+    rw [← hd c hc, List.take_length]
+    exact List.mem_of_mem_drop hv
+
+/-- Instance: destination of two rows, source of one, panic while cloning the first column: the
+cut-off value `⟨0, 2⟩` is dropped twice. -/
+example : (cloneFromFault 1 witnessCols [[⟨0, 7⟩], [⟨2, 8⟩]] 0).1 = [⟨0, 2⟩] ∧
+    (cloneFromFault 1 witnessCols [[⟨0, 7⟩], [⟨2, 8⟩]] 0).2.dropAll = [⟨0, 1⟩, ⟨0, 2⟩, ⟨2, 3⟩, ⟨2, 4⟩] := by
+  refine ⟨by decide, by decide⟩
 
 /-! ### `Entry::remove`: where the detached component is dropped
 
@@ -104,5 +195,7 @@ end Brood
 
 #print axioms Brood.C17_clear_drop_panic_double_drop
 #print axioms Brood.C17_clear_length_first_safe
+#print axioms Brood.C17_remove_drop_panic_double_drop
+#print axioms Brood.C17_clone_from_panic_double_drop
 #print axioms Brood.C17_read_only_safe
 #print axioms Brood.C17_entry_remove_drop_last_safe
